@@ -34,6 +34,17 @@ thread_local! {
     /// comparison "valid builder = checked form" is then not exercised and counted as `fit_not_exercised`)
     static MODERATE: std::cell::Cell<bool> = std::cell::Cell::new(true);
     static NOT_EXERCISED: std::cell::Cell<u64> = std::cell::Cell::new(0);
+    /// per builder / entry point: how often the comparison "valid builder = checked form" and the clause
+    /// "invalid builder returns the checking error" were really run (coverage floors, conf "floors")
+    static EXERCISED: std::cell::RefCell<std::collections::BTreeMap<String, u64>> = std::cell::RefCell::new(std::collections::BTreeMap::new());
+}
+fn exercised(kind: &str, b: &str) {
+    EXERCISED.with(|m| *m.borrow_mut().entry(format!("{}:{}", kind, b)).or_insert(0) += 1);
+}
+/// builders whose training is bounded by an iteration cap or is a closed-form / single pass: trained on EVERY valid
+/// point, however extreme its values
+fn train_always() {
+    MODERATE.with(|c| c.set(true));
 }
 fn set_moderate(vs: &[f64]) {
     MODERATE.with(|c| c.set(vs.iter().all(|x| !x.is_finite() || (x.abs() <= 2.0 && (*x == 0.0 || x.abs() >= 1e-9)))));
@@ -123,6 +134,11 @@ where
     }
     // fit / fit_with / transform on the unchecked builder
     let fu = if r1.is_ok() && (!finite || !MODERATE.with(|c| c.get())) { Ok(Ok(String::new())) } else { catch_unwind(AssertUnwindSafe(|| fit_u(&p))) };
+    match &r1 {
+        Err(_) => exercised("invalid_fit", b),
+        Ok(_) if finite && MODERATE.with(|c| c.get()) => exercised("valid_fit", b),
+        _ => {}
+    }
     let s_fit = match &r1 {
         Err((t, want)) => match fu {
             Ok(Err(e)) if &e == want => format!("err:{}", t),
@@ -147,6 +163,9 @@ where
             "as-checked".to_string()
         }
         Ok(_) => {
+            if matches!(&fu, Ok(Ok(m)) if m != "skipped") {
+                exercised("trained", b);
+            }
             let fc = catch_unwind(AssertUnwindSafe(|| fit_c(p.check_ref().ok().unwrap())));
             let same = match (&fu, &fc) {
                 (Ok(a), Ok(c)) => a == c,
@@ -313,24 +332,34 @@ pub fn run(em: &mut Em, rng: &mut Rng) {
     let fb = fg.iter().position(|x| *x == 0.5).unwrap();
     let cb = cg.iter().position(|x| *x == 2).unwrap();
 
-    // ---- K-means: n_clusters, n_runs, tolerance, max_n_iterations
+    // ---- K-means: n_clusters, n_runs, tolerance, max_n_iterations (blanket Fit and blanket FitWith)
     for t in points(&[nc, nc, nf, nc], &[cb, cb, fb, cb], cap, rng) {
         let (k, r, tol, mi) = (cg[t[0]], cg[t[1]], fg[t[2]], cg[t[3]]);
         em.count("builder:KMeans");
-        em.case(format!("grid b=KMeans n_clusters={} n_runs={} tolerance={} max_n_iterations={}", k, r, h(tol), mi), |ctx| {
-            set_moderate(&[tol]);
-            let p = linfa_clustering::KMeans::params_with(k, rng7(), linfa_nn::distance::L2Dist).n_runs(r).tolerance(tol).max_n_iterations(mi as u64);
-            let viol = first(&[(k >= 1, "n_clusters>=1"), (r >= 1, "n_runs>=1"), (pos(tol), "tolerance>0"), (mi >= 1, "max_n_iterations>=1")]);
-            let ds = DatasetBase::from(xs());
-            probe(ctx, "KMeans", || p.clone(), viol, tol.is_finite(), |p| dbg(p), |c| dbg(c), |e| dbg(&linfa_clustering::KMeansError::from(e)), |p| res!(p.fit(&ds)), |c| res!(c.fit(&ds)))
-        });
+        for with in [false, true] {
+            em.case(format!("grid b=KMeans via={} n_clusters={} n_runs={} tolerance={} max_n_iterations={}", if with { "fit_with" } else { "fit" }, k, r, h(tol), mi), |ctx| {
+                train_always();
+                let p = linfa_clustering::KMeans::params_with(k, rng7(), linfa_nn::distance::L2Dist).n_runs(r).tolerance(tol).max_n_iterations(mi as u64);
+                let viol = first(&[(k >= 1, "n_clusters>=1"), (r >= 1, "n_runs>=1"), (pos(tol), "tolerance>0"), (mi >= 1, "max_n_iterations>=1")]);
+                let ds = DatasetBase::from(xs());
+                // "exactly that error": the outer error types (KMeansError / IncrKMeansError) document the variant
+                // `InvalidParams(<checking error>)`; the expected text is written out here, NOT computed with the
+                // `From` impl under test
+                let conv = |e: linfa_clustering::KMeansParamsError| format!("InvalidParams({:?})", e);
+                if with {
+                    probe(ctx, "KMeans", || p.clone(), viol, tol.is_finite(), |p| dbg(p), |c| dbg(c), conv, |p| res!(p.fit_with(None, &ds)), |c| res!(c.fit_with(None, &ds)))
+                } else {
+                    probe(ctx, "KMeans", || p.clone(), viol, tol.is_finite(), |p| dbg(p), |c| dbg(c), conv, |p| res!(p.fit(&ds)), |c| res!(c.fit(&ds)))
+                }
+            });
+        }
     }
     // ---- DBSCAN: min_points, tolerance
     for t in points(&[nc, nf], &[cb, fb], cap, rng) {
         let (mp, tol) = (cg[t[0]], fg[t[1]]);
         em.count("builder:Dbscan");
         em.case(format!("grid b=Dbscan min_points={} tolerance={}", mp, h(tol)), |ctx| {
-            set_moderate(&[tol]);
+            train_always();
             let p = linfa_clustering::Dbscan::params(mp).tolerance(tol);
             let viol = first(&[(mp >= 2, "min_points>=2"), (pos(tol), "tolerance>0")]);
             let x = xs();
@@ -344,7 +373,7 @@ pub fn run(em: &mut Em, rng: &mut Rng) {
         let (tol, mp) = (fg[t[0]], cg[t[1]]);
         em.count("builder:Optics");
         em.case(format!("grid b=Optics tolerance={} min_points={}", h(tol), mp), |ctx| {
-            set_moderate(&[tol]);
+            train_always();
             let p = linfa_clustering::Optics::params(mp).tolerance(tol);
             let viol = first(&[(pos(tol), "tolerance>0"), (mp >= 2, "min_points>=2")]);
             let x = xs();
@@ -356,7 +385,7 @@ pub fn run(em: &mut Em, rng: &mut Rng) {
         let (k, tol, reg, r, mi) = (cg[t[0]], fg[t[1]], fg[t[2]], cg[t[3]], cg[t[4]]);
         em.count("builder:Gmm");
         em.case(format!("grid b=Gmm n_clusters={} tolerance={} reg_covar={} n_runs={} max_n_iter={}", k, h(tol), h(reg), r, mi), |ctx| {
-            set_moderate(&[tol, reg]);
+            train_always();
             let p = linfa_clustering::GaussianMixtureModel::params_with_rng(k, rng7()).tolerance(tol).reg_covariance(reg).n_runs(r as u64).max_n_iterations(mi as u64);
             let viol = first(&[(k >= 1, "n_clusters>=1"), (pos(tol), "tolerance>0"), (nonneg(reg), "reg_covar>=0"), (r >= 1, "n_runs>=1"), (mi >= 1, "max_n_iter>=1")]);
             let ds = DatasetBase::from(xs());
@@ -370,13 +399,13 @@ pub fn run(em: &mut Em, rng: &mut Rng) {
         let finite = pen.is_finite() && l1.is_finite() && tol.is_finite();
         em.count("builder:ElasticNet");
         em.case(format!("grid b=ElasticNet task=single penalty={} l1_ratio={} tolerance={}", h(pen), h(l1), h(tol)), |ctx| {
-            set_moderate(&[pen, l1, tol]);
+            train_always();
             let p = linfa_elasticnet::ElasticNet::<f64>::params().penalty(pen).l1_ratio(l1).tolerance(tol).max_iterations(50);
             let ds = DatasetBase::new(xs(), ys_f());
             probe(ctx, "ElasticNet", || p.clone(), viol.clone(), finite, |p| dbg(p), |c| dbg(c), |e| dbg(&e), |p| res!(p.fit(&ds)), |c| res!(c.fit(&ds)))
         });
         em.case(format!("grid b=ElasticNet task=multi penalty={} l1_ratio={} tolerance={}", h(pen), h(l1), h(tol)), |ctx| {
-            set_moderate(&[pen, l1, tol]);
+            train_always();
             let p = linfa_elasticnet::MultiTaskElasticNet::<f64>::params().penalty(pen).l1_ratio(l1).tolerance(tol).max_iterations(50);
             let ds = DatasetBase::new(xs(), ys_2());
             probe(ctx, "ElasticNet", || p.clone(), viol.clone(), finite, |p| dbg(p), |c| dbg(c), |e| dbg(&e), |p| res!(p.fit(&ds)), |c| res!(c.fit(&ds)))
@@ -469,12 +498,199 @@ pub fn run(em: &mut Em, rng: &mut Rng) {
             });
         }
     }
-    // ---- decision tree: min_impurity_decrease
+    // ---- SVM, builder call chains: every setter (`eps`, `pos_neg_weights`, `nu_weight`, and on `Svm<F, F>` the
+    //      regression setters `c_eps`, `nu_eps`, `c_svr`, `nu_svr`) in sequences of 1 to 3 calls, on the four target
+    //      kinds (regression, bool, Pr, one-class).  The model runs the same chain through its setter model; the
+    //      response carries the resulting `eps / c / nu` read back from the builder.
+    {
+        #[derive(Clone, Debug)]
+        enum S {
+            Eps(f64),
+            Pn(f64, f64),
+            Nuw(f64),
+            Ceps(f64, f64),
+            Nueps(f64, f64),
+            Csvr(f64, Option<f64>),
+            Nusvr(f64, Option<f64>),
+        }
+        let ho = |o: &Option<f64>| o.map_or("none".to_string(), h);
+        let tok = |s: &S| match s {
+            S::Eps(x) => format!("eps:{}", h(*x)),
+            S::Pn(a, b) => format!("pn:{},{}", h(*a), h(*b)),
+            S::Nuw(v) => format!("nuw:{}", h(*v)),
+            S::Ceps(c, e) => format!("ceps:{},{}", h(*c), h(*e)),
+            S::Nueps(n, e) => format!("nueps:{},{}", h(*n), h(*e)),
+            S::Csvr(c, l) => format!("csvr:{},{}", h(*c), ho(l)),
+            S::Nusvr(n, c) => format!("nusvr:{},{}", h(*n), ho(c)),
+        };
+        // weights / nu / C / loss-epsilon values and solver tolerances
+        let wv: Vec<f64> = vec![-1.0, 0.0, 1e-3, 0.1, 0.5, 1.0, 1.0 + EPS, 2.0, f64::NAN, f64::INFINITY];
+        let ev: Vec<f64> = vec![-1e-9, 0.0, 1e-4, 1e-3, 0.5, f64::NAN, f64::NEG_INFINITY];
+        let good_w = [0.1, 0.5, 1.0];
+        let mut chains: Vec<(&str, Vec<S>)> = vec![];
+        for kind in ["reg", "bool", "pr", "oneclass"] {
+            let reg = kind == "reg";
+            // every setter with every value in each argument (the other argument valid)
+            chains.push((kind, vec![]));
+            for v in &ev {
+                chains.push((kind, vec![S::Eps(*v)]));
+            }
+            for v in &wv {
+                chains.push((kind, vec![S::Nuw(*v)]));
+                chains.push((kind, vec![S::Pn(*v, 0.5)]));
+                chains.push((kind, vec![S::Pn(0.5, *v)]));
+                if reg {
+                    chains.push((kind, vec![S::Ceps(*v, 1e-3)]));
+                    chains.push((kind, vec![S::Nueps(*v, 1e-3)]));
+                    chains.push((kind, vec![S::Csvr(*v, None)]));
+                    chains.push((kind, vec![S::Csvr(1.0, Some(*v))]));
+                    chains.push((kind, vec![S::Nusvr(*v, None)]));
+                    chains.push((kind, vec![S::Nusvr(0.5, Some(*v))]));
+                }
+            }
+            if reg {
+                for v in &ev {
+                    chains.push((kind, vec![S::Ceps(1.0, *v)]));
+                    chains.push((kind, vec![S::Nueps(0.5, *v)]));
+                }
+            }
+            // random chains of 2 or 3 calls: a later setter must override what an earlier (possibly invalid) one left
+            let n = if th { 1500 } else if reg { 220 } else { 90 };
+            for _ in 0..n {
+                let len = 2 + rng.below(2);
+                let mut c = vec![];
+                for _ in 0..len {
+                    let w = |rng: &mut Rng| if rng.chance(1, 2) { good_w[rng.below(3)] } else { wv[rng.below(wv.len())] };
+                    let e = |rng: &mut Rng| if rng.chance(1, 2) { 1e-3 } else { ev[rng.below(ev.len())] };
+                    let o = |rng: &mut Rng, x: f64| if rng.chance(1, 3) { None } else { Some(x) };
+                    let k = rng.below(if reg { 7 } else { 3 });
+                    c.push(match k {
+                        0 => S::Eps(e(rng)),
+                        1 => S::Pn(w(rng), w(rng)),
+                        2 => S::Nuw(w(rng)),
+                        3 => S::Ceps(w(rng), e(rng)),
+                        4 => S::Nueps(w(rng), e(rng)),
+                        5 => { let a = w(rng); let b = w(rng); S::Csvr(a, o(rng, b)) }
+                        _ => { let a = w(rng); let b = w(rng); S::Nusvr(a, o(rng, b)) }
+                    });
+                }
+                chains.push((kind, c));
+            }
+        }
+        for (kind, chain) in chains {
+            em.count(&format!("builder:Svm:setters:{}", kind));
+            let ops = if chain.is_empty() { "-".to_string() } else { chain.iter().map(|s| tok(s)).collect::<Vec<_>>().join(";") };
+            em.case(format!("grid b=Svm via=setters target={} ops={} platt.maxiter=100 platt.minstep={} platt.sigma={}", kind, ops, h(1e-10), h(1e-12)), |ctx| {
+                // the harness's own reading of the setter documentation (hyperparams.rs): which fields a call sets
+                let (mut eps, mut c, mut nu): (f64, Option<(f64, f64)>, Option<(f64, f64)>) = (1e-7, Some((1.0, 1.0)), None);
+                for s in &chain {
+                    match s {
+                        S::Eps(x) => eps = *x,
+                        S::Pn(a, b) => { c = Some((*a, *b)); nu = None }
+                        S::Nuw(v) => { nu = Some((*v, *v)); c = None }
+                        S::Ceps(cc, e) => { c = Some((*cc, 0.1)); nu = None; eps = *e }
+                        S::Nueps(n, e) => { nu = Some((*n, 1.0)); c = None; eps = *e }
+                        S::Csvr(cc, l) => { c = Some((*cc, l.unwrap_or(0.1))); nu = None }
+                        S::Nusvr(n, cc) => { nu = Some((*n, cc.unwrap_or(1.0))); c = None }
+                    }
+                }
+                let fin = eps.is_finite() && c.map_or(true, |(a, b)| a.is_finite() && b.is_finite()) && nu.map_or(true, |(a, b)| a.is_finite() && b.is_finite());
+                // C (both class weights; for regression C and the loss epsilon) strictly positive; nu in (0, 1];
+                // the C value of nu-regression (second component) strictly positive as well ("Negative C value")
+                let viol = first(&[(nonneg(eps), "eps>=0"), (c.map_or(true, |(a, b)| pos(a) && pos(b)), "C>0"), (nu.map_or(true, |(n, _)| n > 0.0 && n <= 1.0), "0<nu<=1"), (nu.map_or(true, |(_, cc)| pos(cc)), "nu-form:C>0")]);
+                set_moderate(&[eps]);
+                // training only with solver tolerances and weights SMO handles quickly
+                let runnable = eps >= 1e-7 && c.map_or(true, |(a, b)| a <= 2.0 && b <= 2.0) && nu.map_or(true, |(_, b)| b <= 2.0);
+                let platt = Platt::<f64, ()>::params().maxiter(100).minstep(1e-10).sigma(1e-12);
+                let pair = |o: Option<(f64, f64)>| o.map_or("none".to_string(), |(a, b)| format!("{},{}", h(a), h(b)));
+                // read the three fields back from the builder's Debug form (f64 Debug round-trips)
+                let readback = |d: &str| -> String {
+                    let num = |t: &str| t.trim().parse::<f64>().map(h).unwrap_or_else(|_| format!("?{}", t));
+                    let opt = |t: &str| -> String {
+                        let t = t.trim();
+                        if t == "None" { return "none".into(); }
+                        match t.strip_prefix("Some((").and_then(|r| r.strip_suffix("))")) {
+                            Some(r) => r.split(", ").map(|x| num(x)).collect::<Vec<_>>().join(","),
+                            None => format!("?{}", t),
+                        }
+                    };
+                    let between = |a: &str, b: &str| -> String { d.find(a).and_then(|i| d[i + a.len()..].find(b).map(|j| d[i + a.len()..i + a.len() + j].to_string())).unwrap_or_default() };
+                    format!("eps={} c={} nu={}", num(&between("SolverParams { eps: ", ", shrinking")), opt(&between("SvmValidParams { c: ", ", nu: ")), opt(&between(", nu: ", ", solver_params")))
+                };
+                macro_rules! chain_on {
+                    ($p:expr) => {{
+                        let mut p = $p;
+                        for s in &chain {
+                            p = match s {
+                                S::Eps(x) => p.eps(*x),
+                                S::Pn(a, b) => p.pos_neg_weights(*a, *b),
+                                S::Nuw(v) => p.nu_weight(*v),
+                                _ => unreachable!(),
+                            };
+                        }
+                        p
+                    }};
+                }
+                let (line, back) = match kind {
+                    "reg" => {
+                        let mut p = linfa_svm::Svm::<f64, f64>::params().with_platt_params(platt);
+                        for s in &chain {
+                            #[allow(deprecated)]
+                            { p = match s {
+                                S::Eps(x) => p.eps(*x),
+                                S::Pn(a, b) => p.pos_neg_weights(*a, *b),
+                                S::Nuw(v) => p.nu_weight(*v),
+                                S::Ceps(c, e) => p.c_eps(*c, *e),
+                                S::Nueps(n, e) => p.nu_eps(*n, *e),
+                                S::Csvr(c, l) => p.c_svr(*c, *l),
+                                S::Nusvr(n, c) => p.nu_svr(*n, *c),
+                            }; }
+                        }
+                        let ds = DatasetBase::new(xs(), ys_f());
+                        let back = readback(&dbg(&p));
+                        (probe(ctx, "Svm:reg", || p.clone(), viol, fin, |p| dbg(p), |c| dbg(c), |e| dbg(&e),
+                            |p| if runnable || p.check_ref().is_err() { res!(p.fit(&ds)) } else { Ok("skipped".into()) },
+                            |c| if runnable { res!(c.fit(&ds)) } else { Ok("skipped".into()) }), back)
+                    }
+                    "bool" => {
+                        let p = chain_on!(linfa_svm::Svm::<f64, bool>::params().with_platt_params(platt));
+                        let ds = DatasetBase::new(xs(), ys_b());
+                        let back = readback(&dbg(&p));
+                        (probe(ctx, "Svm:bool", || p.clone(), viol, fin, |p| dbg(p), |c| dbg(c), |e| dbg(&e),
+                            |p| if runnable || p.check_ref().is_err() { res!(p.fit(&ds)) } else { Ok("skipped".into()) },
+                            |c| if runnable { res!(c.fit(&ds)) } else { Ok("skipped".into()) }), back)
+                    }
+                    "pr" => {
+                        let p = chain_on!(linfa_svm::Svm::<f64, Pr>::params().with_platt_params(platt));
+                        let ds = DatasetBase::new(xs(), ys_b());
+                        let back = readback(&dbg(&p));
+                        (probe(ctx, "Svm:pr", || p.clone(), viol, fin, |p| dbg(p), |c| dbg(c), |e| dbg(&e),
+                            |p| if runnable || p.check_ref().is_err() { res!(p.fit(&ds)) } else { Ok("skipped".into()) },
+                            |c| if runnable { res!(c.fit(&ds)) } else { Ok("skipped".into()) }), back)
+                    }
+                    _ => {
+                        // one-class: targets of unit type; the checked `fit` panics ("One class needs Nu value") when C
+                        // is set — a valid builder then panics exactly like its checked form
+                        let p = chain_on!(linfa_svm::Svm::<f64, Pr>::params().with_platt_params(platt));
+                        let ds = DatasetBase::new(xs(), Array1::from(vec![(); 12]));
+                        let back = readback(&dbg(&p));
+                        (probe(ctx, "Svm:oneclass", || p.clone(), viol, fin, |p| dbg(p), |c| dbg(c), |e| dbg(&e),
+                            |p| if runnable || p.check_ref().is_err() { res!(p.fit(&ds)) } else { Ok("skipped".into()) },
+                            |c| if runnable { res!(c.fit(&ds)) } else { Ok("skipped".into()) }), back)
+                    }
+                };
+                let want = format!("eps={} c={} nu={}", h(eps), pair(c), pair(nu));
+                ctx.require(back == want, "params_unchanged", "Svm:setters", || format!("after {:?} the builder holds {} but the documented effect of the setters is {}", chain, back, want));
+                format!("{} {}", line, back)
+            });
+        }
+    }
+    // ---- decision tree: min_impurity_decrease, carriers f64 and f32 (the guard compares with `F::epsilon()`)
     for v in &fg {
         let x = *v;
         em.count("builder:DecisionTree");
-        em.case(format!("grid b=DecisionTree min_impurity_decrease={}", h(x)), |ctx| {
-            set_moderate(&[x]);
+        em.case(format!("grid b=DecisionTree carrier=f64 min_impurity_decrease={}", h(x)), |ctx| {
+            train_always();
             let p = linfa_trees::DecisionTree::<f64, usize>::params().min_impurity_decrease(x);
             let viol = first(&[(x.is_finite() && x >= EPS, "min_impurity_decrease>=eps")]);
             let ds = DatasetBase::new(xs(), ys_u());
@@ -483,6 +699,23 @@ pub fn run(em: &mut Em, rng: &mut Rng) {
                 |p| p.fit(&ds).map(|m| dbg(&m.predict(&xs()))).map_err(|e| dbg(&e)), |c| c.fit(&ds).map(|m| dbg(&m.predict(&xs()))).map_err(|e| dbg(&e)))
         });
     }
+    {
+        let mut g32: Vec<f32> = fgrid32(th).into_iter().map(|x| x as f32).collect();
+        g32.extend([f32::EPSILON, f32::EPSILON / 2.0, f32::EPSILON * 0.99, EPS as f32, 1e-5, 1e-12]);
+        for x32 in g32 {
+            let x = x32 as f64;
+            em.count("builder:DecisionTree:f32");
+            em.case(format!("grid b=DecisionTree carrier=f32 min_impurity_decrease={}", h(x)), |ctx| {
+                train_always();
+                let p = linfa_trees::DecisionTree::<f32, usize>::params().min_impurity_decrease(x32);
+                let viol = first(&[(x32.is_finite() && x32 >= f32::EPSILON, "min_impurity_decrease>=eps(f32)")]);
+                let x32s = xs().mapv(|v| v as f32);
+                let ds = DatasetBase::new(x32s.clone(), ys_u());
+                probe(ctx, "DecisionTree", || p.clone(), viol, x32.is_finite(), |p| dbg(p), |c| dbg(c), |e| dbg(&e),
+                    |p| p.fit(&ds).map(|m| dbg(&m.predict(&x32s))).map_err(|e| dbg(&e)), |c| c.fit(&ds).map(|m| dbg(&m.predict(&x32s))).map_err(|e| dbg(&e)))
+            });
+        }
+    }
     // ---- naive Bayes: var_smoothing / alpha (fit and fit_with)
     for v in &fg {
         let x = *v;
@@ -490,7 +723,7 @@ pub fn run(em: &mut Em, rng: &mut Rng) {
         let viol = first(&[(nonneg(x), "smoothing>=0")]);
         for with in [false, true] {
             em.case(format!("grid b=GaussianNb via={} var_smoothing={}", if with { "fit_with" } else { "fit" }, h(x)), |ctx| {
-                set_moderate(&[x]);
+                train_always();
                 let p = linfa_bayes::GaussianNb::<f64, usize>::params().var_smoothing(x);
                 let ds = DatasetBase::new(xs(), ys_u());
                 if with {
@@ -500,7 +733,7 @@ pub fn run(em: &mut Em, rng: &mut Rng) {
                 }
             });
             em.case(format!("grid b=MultinomialNb via={} alpha={}", if with { "fit_with" } else { "fit" }, h(x)), |ctx| {
-                set_moderate(&[x]);
+                train_always();
                 let p = linfa_bayes::MultinomialNb::<f64, usize>::params().alpha(x);
                 let ds = DatasetBase::new(xs(), ys_u());
                 if with {
@@ -516,7 +749,7 @@ pub fn run(em: &mut Em, rng: &mut Rng) {
         let (l1, l2, al, be) = (fg[t[0]], fg[t[1]], fg[t[2]], fg[t[3]]);
         em.count("builder:Ftrl");
         em.case(format!("grid b=Ftrl l1_ratio={} l2_ratio={} alpha={} beta={}", h(l1), h(l2), h(al), h(be)), |ctx| {
-            set_moderate(&[l1, l2, al, be]);
+            train_always();
             let p = linfa_ftrl::Ftrl::<f64>::params_with_rng(rng7()).l1_ratio(l1).l2_ratio(l2).alpha(al).beta(be);
             let viol = first(&[(unit(l1), "0<=l1_ratio<=1"), (unit(l2), "0<=l2_ratio<=1"), (nonneg(al), "alpha>=0"), (nonneg(be), "beta>=0")]);
             let ds = DatasetBase::new(xs(), ys_b());
@@ -532,7 +765,7 @@ pub fn run(em: &mut Em, rng: &mut Rng) {
         macro_rules! pls {
             ($name:expr, $ty:ident) => {
                 em.case(format!("grid b=PlsMacro kind={} tolerance={} max_iter={}", $name, h(tol), mi), |ctx| {
-                    set_moderate(&[tol]);
+                    train_always();
                     let mk = || linfa_pls::$ty::<f64>::params(1).tolerance(tol).max_iterations(mi);
                     let ds = DatasetBase::new(xs(), ys_2());
                     // these builders implement neither Debug nor Clone: the guarded values are not readable
@@ -547,27 +780,37 @@ pub fn run(em: &mut Em, rng: &mut Rng) {
         pls!("cca", PlsCca);
         // (the generic `PlsParams` is `pub(crate)`: not reachable from outside the crate)
     }
-    // ---- t-SNE: perplexity, approx_threshold
+    // ---- t-SNE: perplexity, approx_threshold; both hand-written entry points (`Array2` and `DatasetBase` records)
     for t in points(&[nf, nf], &[fb, fb], cap, rng) {
         let (pe, th_) = (fg[t[0]], fg[t[1]]);
         em.count("builder:TSne");
-        em.case(format!("grid b=TSne perplexity={} approx_threshold={}", h(pe), h(th_)), |ctx| {
-            set_moderate(&[pe, th_]);
-            let p = linfa_tsne::TSneParams::embedding_size_with_rng(2, rng7()).perplexity(pe).approx_threshold(th_).max_iter(3);
-            let viol = first(&[(nonneg(pe), "perplexity>=0"), (nonneg(th_), "approx_threshold>=0")]);
-            // the embedding itself is only computed for parameter values bhtsne handles quickly
-            let runnable = pe.is_finite() && th_.is_finite() && pe >= 0.5 && pe <= 2.0;
-            probe(ctx, "TSne", || p.clone(), viol, pe.is_finite() && th_.is_finite(), |p| dbg(p), |c| dbg(c), |e| dbg(&e),
-                |p| if runnable || p.check_ref().is_err() { p.transform(xs()).map(|m| dbg(&m.dim())).map_err(|e| dbg(&e)) } else { Ok("skipped".into()) },
-                |c| if runnable { c.transform(xs()).map(|m| dbg(&m.dim())).map_err(|e| dbg(&e)) } else { Ok("skipped".into()) })
-        });
+        for form in ["array", "dataset"] {
+            em.case(format!("grid b=TSne via=try:{} perplexity={} approx_threshold={}", form, h(pe), h(th_)), |ctx| {
+                set_moderate(&[pe, th_]);
+                let p = linfa_tsne::TSneParams::embedding_size_with_rng(2, rng7()).perplexity(pe).approx_threshold(th_).max_iter(3);
+                let viol = first(&[(nonneg(pe), "perplexity>=0"), (nonneg(th_), "approx_threshold>=0")]);
+                // the embedding itself is only computed for parameter values bhtsne handles quickly
+                let runnable = pe.is_finite() && th_.is_finite() && pe >= 0.5 && pe <= 2.0;
+                let b = if form == "array" { "TSne" } else { "TSne:dataset" };
+                if form == "array" {
+                    probe(ctx, b, || p.clone(), viol, pe.is_finite() && th_.is_finite(), |p| dbg(p), |c| dbg(c), |e| dbg(&e),
+                        |p| if runnable || p.check_ref().is_err() { p.transform(xs()).map(|m| dbg(&m.dim())).map_err(|e| dbg(&e)) } else { Ok("skipped".into()) },
+                        |c| if runnable { c.transform(xs()).map(|m| dbg(&m.dim())).map_err(|e| dbg(&e)) } else { Ok("skipped".into()) })
+                } else {
+                    let out = |d: DatasetBase<Array2<f64>, Array1<usize>>| format!("{:?} targets={:?}", d.records().dim(), d.targets());
+                    probe(ctx, b, || p.clone(), viol, pe.is_finite() && th_.is_finite(), |p| dbg(p), |c| dbg(c), |e| dbg(&e),
+                        |p| if runnable || p.check_ref().is_err() { p.transform(DatasetBase::new(xs(), ys_u())).map(out).map_err(|e| dbg(&e)) } else { Ok("skipped".into()) },
+                        |c| if runnable { c.transform(DatasetBase::new(xs(), ys_u())).map(out).map_err(|e| dbg(&e)) } else { Ok("skipped".into()) })
+                }
+            });
+        }
     }
     // ---- FastICA: tol
     for v in &fg {
         let x = *v;
         em.count("builder:FastIca");
         em.case(format!("grid b=FastIca tol={}", h(x)), |ctx| {
-            set_moderate(&[x]);
+            train_always();
             let p = linfa_ica::fast_ica::FastIca::<f64>::params().tol(x).ncomponents(2).random_state(3).max_iter(10);
             let viol = first(&[(nonneg(x), "tol>=0")]);
             let ds = DatasetBase::from(xs());
@@ -658,42 +901,74 @@ pub fn run(em: &mut Em, rng: &mut Rng) {
             });
         }
     }
-    // ---- count vectoriser: n_gram_range, document_frequency, split regex
+    // ---- count vectoriser: n_gram_range, document_frequency, split regex — through the three hand-written entry
+    //      points of `CountVectorizerParams` and the three of `TfIdfVectorizer` (which wraps an unchecked builder)
     {
         let f32g = fgrid32(th);
         let n32 = f32g.len();
         let b32 = f32g.iter().position(|x| *x == 0.5).unwrap();
         let ng: Vec<usize> = if th { vec![0, 1, 2, 3, 7] } else { vec![0, 1, 2, 3] };
-        for t in points(&[ng.len(), ng.len(), n32, n32, 2], &[1, 2, 2, b32, 1], cap.max(400), rng) {
+        let texts = ["one two three four", "one two three", "one two", "one five six"];
+        let dir = std::env::temp_dir().join(format!("linfa_verif_c04_{}", std::process::id()));
+        let _ = std::fs::create_dir_all(&dir);
+        let paths: Vec<std::path::PathBuf> = texts.iter().enumerate().map(|(i, t)| { let f = dir.join(format!("doc{}.txt", i)); std::fs::write(&f, t).unwrap(); f }).collect();
+        let forms_all = ["and_then:fit", "and_then:fit_vocabulary", "and_then:fit_files", "wrap:tfidf_fit", "wrap:tfidf_fit_vocabulary", "wrap:tfidf_fit_files"];
+        for (i, t) in points(&[ng.len(), ng.len(), n32, n32, 2], &[1, 2, 2, b32, 1], cap.max(400), rng).into_iter().enumerate() {
             let (a, b, lo, hi, rok) = (ng[t[0]], ng[t[1]], f32g[t[2]], f32g[t[3]], t[4] == 1);
             em.count("builder:CountVectorizer");
-            em.case(format!("grid b=CountVectorizer n_gram_range={},{} document_frequency={},{} split_regex_ok={}", a, b, h(lo), h(hi), rok as u8), |ctx| {
-                set_moderate(&[lo, hi]);
-                let mut p = linfa_preprocessing::CountVectorizer::params().n_gram_range(a, b).document_frequency(lo as f32, hi as f32);
-                if !rok {
-                    p = p.tokenizer(linfa_preprocessing::Tokenizer::Regex("(unclosed".to_string()));
-                }
-                let viol = first(&[(a >= 1 && b >= 1, "n_gram>=1"), (a <= b, "min_n<=max_n"), (unit(lo), "0<=min_freq<=1"), (unit(hi), "0<=max_freq<=1"), (lo <= hi, "min_freq<=max_freq"), (rok, "regex valid")]);
-                let docs = array!["one two three four", "one two three", "one two", "one five six"];
-                // the compiled regex is cached inside the parameters by check_ref (interior mutability): it is
-                // not a hyperparameter, so it is masked in the printed form
-                let show = |s: String| -> String {
-                    match (s.find("split_regex: "), s.find("n_gram_range: ")) {
-                        (Some(i), Some(j)) if i < j => format!("{}{}", &s[..i], &s[j..]),
-                        _ => s,
+            // every entry point on the one-at-a-time deviations (they come first); on the sampled combinations
+            // `fit` plus one other entry point in rotation (quick tier)
+            let forms: Vec<&str> = if th || i < 60 { forms_all.to_vec() } else { vec![forms_all[0], forms_all[1 + i % 5]] };
+            for form in forms {
+                em.case(format!("grid b=CountVectorizer via={} n_gram_range={},{} document_frequency={},{} split_regex_ok={}", form, a, b, h(lo), h(hi), rok as u8), |ctx| {
+                    train_always();
+                    let mut p = linfa_preprocessing::CountVectorizer::params().n_gram_range(a, b).document_frequency(lo as f32, hi as f32);
+                    let mut tf = linfa_preprocessing::tf_idf_vectorization::TfIdfVectorizer::default().n_gram_range(a, b).document_frequency(lo as f32, hi as f32);
+                    if !rok {
+                        p = p.tokenizer(linfa_preprocessing::Tokenizer::Regex("(unclosed".to_string()));
+                        tf = tf.tokenizer(linfa_preprocessing::Tokenizer::Regex("(unclosed".to_string()));
                     }
-                };
-                probe(ctx, "CountVectorizer", || p.clone(), viol, lo.is_finite() && hi.is_finite(), |p| show(dbg(p)), |c| show(dbg(c)), |e| dbg(&e),
-                    |p| p.fit(&docs).map(|m| { let mut v = m.vocabulary().clone(); v.sort(); dbg(&v) }).map_err(|e| dbg(&e)),
-                    |c| c.fit(&docs).map(|m| { let mut v = m.vocabulary().clone(); v.sort(); dbg(&v) }).map_err(|e| dbg(&e)))
-            });
+                    let viol = first(&[(a >= 1 && b >= 1, "n_gram>=1"), (a <= b, "min_n<=max_n"), (unit(lo), "0<=min_freq<=1"), (unit(hi), "0<=max_freq<=1"), (lo <= hi, "min_freq<=max_freq"), (rok, "regex valid")]);
+                    let docs = Array1::from(texts.to_vec());
+                    let words = ["one", "two", "seven"];
+                    // the compiled regex is cached inside the parameters by check_ref (interior mutability): it is
+                    // not a hyperparameter, so it is masked in the printed form
+                    let show = |s: String| -> String {
+                        match (s.find("split_regex: "), s.find("n_gram_range: ")) {
+                            (Some(i), Some(j)) if i < j => format!("{}{}", &s[..i], &s[j..]),
+                            _ => s,
+                        }
+                    };
+                    let voc = |v: &Vec<String>| { let mut v = v.clone(); v.sort(); dbg(&v) };
+                    let (utf8, strict) = (linfa_preprocessing::verif_hooks_c04::utf8, linfa_preprocessing::verif_hooks_c04::strict);
+                    let bname = format!("CountVectorizer:{}", form.split(':').nth(1).unwrap());
+                    let bname = if form == "and_then:fit" { "CountVectorizer".to_string() } else { bname };
+                    probe(ctx, &bname, || p.clone(), viol, lo.is_finite() && hi.is_finite(), |p| show(dbg(p)), |c| show(dbg(c)), |e| dbg(&e),
+                        |p| match form {
+                            "and_then:fit" => p.fit(&docs).map(|m| voc(m.vocabulary())).map_err(|e| dbg(&e)),
+                            "and_then:fit_vocabulary" => p.fit_vocabulary(&words).map(|m| voc(m.vocabulary())).map_err(|e| dbg(&e)),
+                            "and_then:fit_files" => p.fit_files(&paths, utf8(), strict()).map(|m| voc(m.vocabulary())).map_err(|e| dbg(&e)),
+                            "wrap:tfidf_fit" => tf.fit(&docs).map(|m| voc(m.vocabulary())).map_err(|e| dbg(&e)),
+                            "wrap:tfidf_fit_vocabulary" => tf.fit_vocabulary(&words).map(|m| voc(m.vocabulary())).map_err(|e| dbg(&e)),
+                            _ => tf.fit_files(&paths, utf8(), strict()).map(|m| voc(m.vocabulary())).map_err(|e| dbg(&e)),
+                        },
+                        |c| match form {
+                            "and_then:fit" | "wrap:tfidf_fit" => c.fit(&docs).map(|m| voc(m.vocabulary())).map_err(|e| dbg(&e)),
+                            "and_then:fit_vocabulary" | "wrap:tfidf_fit_vocabulary" => c.fit_vocabulary(&words).map(|m| voc(m.vocabulary())).map_err(|e| dbg(&e)),
+                            _ => c.fit_files(&paths, utf8(), strict()).map(|m| voc(m.vocabulary())).map_err(|e| dbg(&e)),
+                        })
+                });
+            }
         }
+        let _ = std::fs::remove_dir_all(&dir);
     }
     // ---- Platt scaling (fit_with): maxiter, minstep, sigma
     for t in points(&[nc, nf, nf], &[cb, fb, fb], cap, rng) {
         let (mi, ms, sg) = (cg[t[0]], fg[t[1]], fg[t[2]]);
         em.count("builder:Platt");
         em.case(format!("grid b=Platt maxiter={} minstep={} sigma={}", mi, h(ms), h(sg)), |ctx| {
+            // (not `train_always`: with minstep = 0 the line search of Platt scaling has no exit when no step decreases the
+            //  objective, e.g. sigma = f64::MAX — checked and unchecked form hang alike)
             set_moderate(&[ms, sg]);
             let p = Platt::<f64, FirstColumn>::params().maxiter(mi).minstep(ms).sigma(sg);
             let viol = first(&[(mi >= 1, "maxiter>=1"), (nonneg(ms), "minstep>=0"), (nonneg(sg), "sigma>=0")]);
@@ -702,6 +977,68 @@ pub fn run(em: &mut Em, rng: &mut Rng) {
                 |p| res!(p.fit_with(FirstColumn, &ds)), |c| res!(c.fit_with(FirstColumn, &ds)))
         });
     }
+    // ---- negative zero (oracle only: the model's float domain has no -0.0).  The documentation never mentions
+    //      -0.0; per field the verdict of TODAY's guard is the reading (a guard written `x < 0` accepts it, one
+    //      written `x.is_negative()` reads the sign bit and rejects it).  A rewrite of one spelling into the other
+    //      changes which finite values pass checking and is reported here.
+    {
+        let nz = -0.0f64;
+        let mut one = |em: &mut Em, field: &str, accepts_today: bool, verdict: &dyn Fn() -> bool| {
+            em.count("negzero_fields");
+            em.case(format!("#negzero field={}", field), |ctx| {
+                let ok = verdict();
+                ctx.require(ok == accepts_today, "ok_iff_in_range", &format!("negzero:{}:{}", field, if ok { "now-accepted" } else { "now-rejected" }),
+                    || format!("{} = -0.0 is {} by checking; the reading of the documented range for -0.0 (the guard as of the pinned tree) is {}", field, if ok { "accepted" } else { "rejected" }, if accepts_today { "accepted" } else { "rejected" }));
+                "-".to_string()
+            });
+        };
+        one(em, "Platt.minstep", false, &|| Platt::<f64, FirstColumn>::params().minstep(nz).check_ref().is_ok());
+        one(em, "Platt.sigma", false, &|| Platt::<f64, FirstColumn>::params().sigma(nz).check_ref().is_ok());
+        one(em, "Gmm.reg_covar", true, &|| linfa_clustering::GaussianMixtureModel::<f64>::params_with_rng(2, rng7()).reg_covariance(nz).check_ref().is_ok());
+        one(em, "ElasticNet.penalty", false, &|| linfa_elasticnet::ElasticNet::<f64>::params().penalty(nz).check_ref().is_ok());
+        one(em, "ElasticNet.l1_ratio", true, &|| linfa_elasticnet::ElasticNet::<f64>::params().l1_ratio(nz).check_ref().is_ok());
+        one(em, "ElasticNet.tolerance", false, &|| linfa_elasticnet::ElasticNet::<f64>::params().tolerance(nz).check_ref().is_ok());
+        one(em, "Logistic.alpha", true, &|| linfa_logistic::LogisticRegression::<f64>::default().alpha(nz).check_ref().is_ok());
+        one(em, "Tweedie.alpha", false, &|| linfa_linear::TweedieRegressor::<f64>::params().alpha(nz).check_ref().is_ok());
+        one(em, "Tweedie.power", true, &|| linfa_linear::TweedieRegressor::<f64>::params().power(nz).check_ref().is_ok());
+        one(em, "Svm.eps", false, &|| linfa_svm::Svm::<f64, bool>::params().eps(nz).check_ref().is_ok());
+        one(em, "GaussianNb.var_smoothing", false, &|| linfa_bayes::GaussianNb::<f64, usize>::params().var_smoothing(nz).check_ref().is_ok());
+        one(em, "MultinomialNb.alpha", false, &|| linfa_bayes::MultinomialNb::<f64, usize>::params().alpha(nz).check_ref().is_ok());
+        one(em, "Ftrl.l1_ratio", true, &|| linfa_ftrl::Ftrl::<f64>::params_with_rng(rng7()).l1_ratio(nz).check_ref().is_ok());
+        one(em, "Ftrl.l2_ratio", true, &|| linfa_ftrl::Ftrl::<f64>::params_with_rng(rng7()).l2_ratio(nz).check_ref().is_ok());
+        one(em, "Ftrl.alpha", false, &|| linfa_ftrl::Ftrl::<f64>::params_with_rng(rng7()).alpha(nz).check_ref().is_ok());
+        one(em, "Ftrl.beta", false, &|| linfa_ftrl::Ftrl::<f64>::params_with_rng(rng7()).beta(nz).check_ref().is_ok());
+        one(em, "PlsRegression.tolerance", false, &|| linfa_pls::PlsRegression::<f64>::params(1).tolerance(nz).check_ref().is_ok());
+        one(em, "TSne.perplexity", false, &|| linfa_tsne::TSneParams::embedding_size_with_rng(2, rng7()).perplexity(nz).check_ref().is_ok());
+        one(em, "TSne.approx_threshold", false, &|| linfa_tsne::TSneParams::embedding_size_with_rng(2, rng7()).approx_threshold(nz).check_ref().is_ok());
+        one(em, "FastIca.tol", true, &|| linfa_ica::fast_ica::FastIca::<f64>::params().tol(nz).check_ref().is_ok());
+        one(em, "Hierarchical.max_distance", false, &|| linfa_hierarchical::HierarchicalCluster::<f64>::default().max_distance(nz).check_ref().is_ok());
+        one(em, "CountVectorizer.min_freq", true, &|| linfa_preprocessing::CountVectorizer::params().document_frequency(-0.0f32, 0.5).check_ref().is_ok());
+        one(em, "DecisionTree.min_impurity_decrease", false, &|| linfa_trees::DecisionTree::<f64, usize>::params().min_impurity_decrease(nz).check_ref().is_ok());
+    }
+    // ---- documented ranges of parameters NO guard reads (oracle only: the translated `Params` holds exactly the
+    //      fields the guard reads).  Elastic net: the builder's parameter table gives max_iterations `[1, inf)`.
+    for mi in [0u32, 1, 50] {
+        em.count("docrange:ElasticNet.max_iterations");
+        em.case(format!("#docrange field=ElasticNet.max_iterations value={}", mi), |ctx| {
+            let single = linfa_elasticnet::ElasticNet::<f64>::params().max_iterations(mi);
+            let multi = linfa_elasticnet::MultiTaskElasticNet::<f64>::params().max_iterations(mi);
+            let ok = (single.check_ref().is_ok(), multi.check_ref().is_ok());
+            if mi == 0 && (ok.0 || ok.1) {
+                let m = single.fit(&DatasetBase::new(xs(), ys_f())).map(|m| format!("hyperplane {:?} intercept {:?}", m.hyperplane(), m.intercept())).map_err(|e| dbg(&e));
+                ctx.fail("ok_iff_in_range", "ElasticNet:accepted:doc:max_iterations>=1", format!("max_iterations(0) is outside the documented range [1, inf) (hyperparams.rs parameter table) but passes check_ref (single {}, multi {}); fit -> {:?}", ok.0, ok.1, m));
+            }
+            if mi >= 1 && !(ok.0 && ok.1) {
+                ctx.fail("ok_iff_in_range", "ElasticNet:rejected:doc:max_iterations>=1", format!("max_iterations({}) is inside the documented range but is rejected", mi));
+            }
+            "-".to_string()
+        });
+    }
     em.count_n("fit_not_exercised(extreme valid values)", NOT_EXERCISED.with(|c| c.get()));
+    EXERCISED.with(|m| {
+        for (k, v) in m.borrow().iter() {
+            em.count_n(k, *v);
+        }
+    });
     let _ = Pr::new(0.5);
 }
